@@ -118,6 +118,15 @@ func runMutant(self, repo, verif string, m Mutant) MutantResult {
 		r.Fired = append(r.Fired, k)
 	}
 	sort.Strings(r.Fired)
+	if m.Kind == "limitation" {
+		// a behaviour-preserving refactoring that the rules are known not to see through
+		// (listed with the reason in mutants/gen.py and DESIGN.md 7.6): recorded, not hidden
+		r.Status = "limitation"
+		if len(fired) == 0 {
+			r.Status = "quiet"
+		}
+		return r
+	}
 	if m.Kind == "silent" {
 		if len(fired) == 0 {
 			r.Status = "quiet"
